@@ -14,12 +14,13 @@
 (***************************************************************************)
 EXTENDS Integers, Sequences, FiniteSets, SequencesExt
 
-Kinds == {"path", "binary", "text", "custom"}
+\* "ufile": a real file object the USER opened (binary or text mode) and handed over; the builder never closes it
+Kinds == {"path", "binary", "text", "custom", "ufile"}
 RangeOf(s) == {s[i] : i \in DOMAIN s}
 IsPrefixOf(s, t) == Len(s) <= Len(t) /\ SubSeq(t, 1, Len(s)) = s
 
 \* after a write: unbuffered outputs show everything; a path-based file may lag behind (buffering) but never shows anything else
-DeliveredOK(kind, vis, exp) == IF kind = "path" THEN IsPrefixOf(vis, exp) ELSE vis = exp
+DeliveredOK(kind, vis, exp) == IF kind \in {"path", "ufile"} THEN IsPrefixOf(vis, exp) ELSE vis = exp
 \* after flush / teardown, for a writer registered at that moment
 FlushedOK(vis, exp) == vis = exp
 =============================================================================
